@@ -15,6 +15,7 @@ import (
 	"strconv"
 	"strings"
 	"sync"
+	"sync/atomic"
 	"time"
 
 	mycoria "github.com/mycoria/mycoria"
@@ -55,6 +56,8 @@ type childResult struct {
 	Goroutines  []int    `json:"goroutines_after_cycle"`
 	PongOK      int      `json:"pong_ok"`
 	PongTimeout int      `json:"pong_timeout"`
+	FloodSent   int64    `json:"flood_sent"`
+	FloodErrs   int64    `json:"flood_errs"`
 }
 
 func freePort(base int) int {
@@ -202,6 +205,10 @@ func childRun(args []string) int {
 	idx, _ := strconv.Atoi(args[1])
 	cycles, _ := strconv.Atoi(args[2])
 	workdir := args[3]
+	mode := "normal"
+	if len(args) > 4 {
+		mode = args[4]
+	}
 	r := rand.New(rand.NewPCG(seed, uint64(idx)))
 	g := genConfig(r)
 	res := &childResult{ConfigDesc: g.String(), ConfigHash: core.Hash(g.String())}
@@ -258,6 +265,42 @@ func childRun(args []string) int {
 		instA = start("A", stA)
 		if instA == nil {
 			return emit()
+		}
+		if mode == "immediate" {
+			// Stop right after Start, before anything had time to happen.
+			if ok := instA.Stop(); !ok {
+				fail("stop-returned-false", "router A: Stop() right after Start() returned false")
+			}
+			if c, err := net.DialTimeout("tcp", fmt.Sprintf("127.0.0.1:%d", portA), 300*time.Millisecond); err == nil {
+				c.Close()
+				// the listener may come up late: it must still go away
+				time.Sleep(500 * time.Millisecond)
+			}
+			var left []string
+			for try := 0; try < 100; try++ {
+				runtime.GC()
+				runtime.Gosched()
+				left = mycoriaGoroutines()
+				if len(left) == 0 {
+					break
+				}
+				time.Sleep(100 * time.Millisecond)
+			}
+			for _, g := range left {
+				first := strings.SplitN(g, "\n", 2)[0]
+				fail("goroutine-left-after-stop:"+sigOf(g), "cycle %d: Stop() right after Start() returned, but a goroutine of the router is still alive 10s later: %s in %s", cycle, first, sigOf(g))
+				break
+			}
+			if c, err := net.DialTimeout("tcp", fmt.Sprintf("127.0.0.1:%d", portA), 300*time.Millisecond); err == nil {
+				c.Close()
+				fail("listener-open-after-stop", "router A: listener 127.0.0.1:%d accepts connections after Stop() returned (stopped right after Start)", portA)
+			}
+			res.Goroutines = append(res.Goroutines, runtime.NumGoroutine())
+			res.Cycles++
+			if len(res.Violations) > 0 {
+				break
+			}
+			continue
 		}
 		// The listener is brought up by a worker: wait for it structurally (bounded).
 		deadline := time.Now().Add(20 * time.Second)
@@ -345,8 +388,57 @@ func childRun(args []string) int {
 				}
 			}
 		}
-		// Stop.
-		for name, in := range map[string]*mycoria.Instance{"B": instB, "A": instA} {
+		// Stop. In flood mode A is stopped while B keeps sending it frames.
+		stopFlood := make(chan struct{})
+		var floodWG sync.WaitGroup
+		var floodSent, floodErrs atomic.Int64
+		order := []string{"B", "A"}
+		if mode == "flood-stop" && linked {
+			order = []string{"A", "B"}
+			for g := 0; g < 3; g++ {
+				floodWG.Add(1)
+				go func() {
+					defer floodWG.Done()
+					for {
+						select {
+						case <-stopFlood:
+							return
+						default:
+						}
+						if _, _, err := instB.Router().PingPong.Send(idA.IP, true, 0); err != nil {
+							floodErrs.Add(1)
+							time.Sleep(50 * time.Microsecond)
+						} else {
+							floodSent.Add(1)
+						}
+					}
+				}()
+			}
+		}
+		if mode == "stop-with-inflight-frame" && linked {
+			// A frame from the peer arrives in the gap of the stop sequence after the switch workers
+			// have exited and before the peering module is cancelled. The harness performs the first
+			// steps of Group.Stop (router, then switch) by hand to hold the router in that gap.
+			order = []string{"A", "B"}
+			_ = instA.Router().Stop()
+			instA.Router().Manager().Cancel()
+			instA.Router().Manager().WaitForWorkers(10 * time.Second)
+			instA.Switch().Manager().Cancel()
+			instA.Switch().Manager().WaitForWorkers(10 * time.Second)
+			for k := 0; k < 3; k++ {
+				_, _, _ = instB.Router().PingPong.Send(idA.IP, true, 0)
+			}
+			time.Sleep(50 * time.Millisecond) // let the frames reach A's link reader
+		}
+		insts := map[string]*mycoria.Instance{"B": instB, "A": instA}
+		for oi, name := range order {
+			in := insts[name]
+			if oi == 1 {
+				close(stopFlood)
+				floodWG.Wait()
+				res.FloodSent += floodSent.Load()
+				res.FloodErrs += floodErrs.Load()
+			}
 			t1 := time.Now()
 			var ok bool
 			func() {
@@ -442,8 +534,12 @@ func run(c *core.Ctx) {
 			dir := filepath.Join(c.WorkDir, fmt.Sprintf("c%d", i))
 			ctx, cancel := context.WithTimeout(context.Background(), 8*time.Minute)
 			defer cancel()
-			cmd := exec.CommandContext(ctx, exe, "child", "c20run", strconv.FormatUint(seed, 10), strconv.Itoa(i), strconv.Itoa(cycles), dir)
+			mode := []string{"normal", "flood-stop", "stop-with-inflight-frame", "immediate"}[i%4]
+			cmd := exec.CommandContext(ctx, exe, "child", "c20run", strconv.FormatUint(seed, 10), strconv.Itoa(i), strconv.Itoa(cycles), dir, mode)
 			cmd.Env = append(os.Environ(), "GOTRACEBACK=all")
+			if mode == "immediate" {
+				cmd.Env = append(cmd.Env, "GOMAXPROCS=1")
+			}
 			out, err := cmd.CombinedOutput()
 			_ = os.RemoveAll(dir)
 			text := string(out)
@@ -484,6 +580,7 @@ func run(c *core.Ctx) {
 			if cr.OK && len(cr.Inconcl) == 0 {
 				res.Count("routers_started_peered_stopped_cycles", int64(cr.Cycles))
 				res.Count("configs_clean", 1)
+				res.Count("cycles_mode_"+mode, int64(cr.Cycles))
 				res.Count("pong_exchanges_ok", int64(cr.PongOK))
 				res.Count("pong_exchanges_timed_out", int64(cr.PongTimeout))
 				if i < 3 {
